@@ -166,6 +166,12 @@ def auto_accept(body, kind, bb):
                     lo, ro = origin(body, rv['l']), origin(body, rv['r'])
                     if rv['op'].startswith('Sub') and 'nz_get' in lo.flags and ro.consts() == {1} and len(ro.atoms) == 1:
                         return 'NonZero::get() - 1'
+                    if rv['op'].startswith('Sub') and ro.consts() == {1} and len(ro.atoms) == 1:
+                        # `match n { 0 => .., l => l - 1 }`: the subtraction sits on the edge that excludes zero
+                        for d_, si_, taken_ in dominating_switches(body, d[0]):
+                            if si_.get('kind') != 'enum' and taken_[0] == 'not' and 0 in taken_[1] and not lo.has_arith() and \
+                                    origin(body, si_['op']).atoms == lo.atoms:
+                                return 'n - 1 in the non-zero arm of a match on n'
                     if rv['op'].startswith('Sub') and sub_is_guarded(body, d[0], rv['l'], rv['r']):
                         return 'subtraction dominated by a comparison establishing minuend >= subtrahend'
                     if rv['op'] in ('Div', 'Rem') or kind in ('assert:div_zero', 'assert:rem_zero'):
@@ -481,7 +487,8 @@ def seqcap_rule(ctx):
         if call_matches(t, ['::saturating_add']):
             a0, a1 = origin(hm, t['args'][0]), origin(hm, t['args'][1])
             # (flow-insensitive provenance folds the stored sum back into the field once a helper is spliced in)
-            if len(a0.fields) == 1 and a0.params() == {1} and all('saturating_add' in n_ for n_ in a0.call_names()) and any('read_block_len' in cname(c) for c in a1.calls) and 'nz_get' in a1.flags:
+            if len(a0.fields) == 1 and a0.params() == {1} and all('saturating_add' in n_ for n_ in a0.call_names()) and any('read_block_len' in cname(c) for c in a1.calls) and \
+                    ('nz_get' in a1.flags or not a1.has_arith()):
                 acc = True
                 acc_field = list(a0.fields)[0]
     ctx.ob('SEQCAP', 'has_more/cumulative-saturating', sat and acc, short_loc(hm.span),
